@@ -5,6 +5,7 @@ package sx
 
 import (
 	"fmt"
+	"go/ast"
 	"go/types"
 	"os"
 	"runtime/debug"
@@ -792,6 +793,24 @@ func (P *Program) HarnessNames(prop string) []string {
 	}
 	sort.Strings(names)
 	return names
+}
+
+// HarnessDoc returns the doc comment of a harness function: it states the
+// harness's bounds in words and goes into the evidence verbatim.
+func (P *Program) HarnessDoc(fnName string) string {
+	for _, pkg := range P.Pkgs {
+		if pkg.PkgPath != propsPath {
+			continue
+		}
+		for _, f := range pkg.Syntax {
+			for _, d := range f.Decls {
+				if fd, ok := d.(*ast.FuncDecl); ok && fd.Recv == nil && fd.Name.Name == fnName && fd.Doc != nil {
+					return strings.Join(strings.Fields(fd.Doc.Text()), " ")
+				}
+			}
+		}
+	}
+	return ""
 }
 
 // AssertLabels statically collects the constant labels of sym.Assert and
